@@ -8,6 +8,8 @@ import (
 	"os"
 	"path/filepath"
 	"runtime/debug"
+	"runtime/pprof"
+	"time"
 	"sort"
 	"strconv"
 	"strings"
@@ -29,6 +31,18 @@ func main() {
 		selftst = flag.Bool("selftest", false, "run the canary/mutant corpus of -prop (all with -tier thorough, first canary with quick)")
 	)
 	flag.Parse()
+	debug.SetGCPercent(600)
+	if pf := os.Getenv("VERIF_CPUPROFILE"); pf != "" {
+		f, _ := os.Create(pf)
+		pprof.StartCPUProfile(f)
+		defer pprof.StopCPUProfile()
+		go func() {
+			time.Sleep(60 * time.Second)
+			pprof.StopCPUProfile()
+			f.Close()
+			os.Exit(9)
+		}()
+	}
 	if *verif == "" {
 		exe, _ := os.Executable()
 		*verif = filepath.Dir(filepath.Dir(exe))
